@@ -315,8 +315,10 @@ def impl_run(case):
     registry = StepRegistry()
 
     def emit(tag):
-        sys.stdout.write("OUT-%s\n" % tag)
-        sys.stderr.write("ERR-%s\n" % tag)
+        # most writes end their line (print); some do not (sys.stdout.write / print(..., end=" "))
+        end = " " if sum(map(ord, tag)) % 3 == 0 else "\n"
+        sys.stdout.write("OUT-%s%s" % (tag, end))
+        sys.stderr.write("ERR-%s%s" % (tag, end))
         logging.getLogger("verif").error("LOG-%s", tag)
 
     def mk(kind):
